@@ -3,15 +3,24 @@ PROPS_FILE = "Props_C14.v"
 RULE = ("random histories of Register calls over a small identity pool (so re-lookups, collisions and "
         "re-registrations are frequent); every second history keeps the callers' discipline incl. the router-level one "
         "(router queries name unit ids as parent, peer queries never do); a case is non-trivial when it contains a find-or-register that "
-        "re-finds an earlier id or an update of an existing entry; distinct = distinct case text")
+        "re-finds an earlier id or an update of an existing entry; distinct = distinct case text. Engine c14u: random sequences of the units' "
+        "registration / lookup sites on one register (table dumps, update and state-change files through the real mrt-file-in unit, BMP Peer Ups "
+        "through the real state machine, router / BGP-session registrations, entries filed directly, descriptive updates) over 5 peers and 3 routers; "
+        "3 of 4 cases keep the discipline of C14_site_refound_unique (no re-dump of a peer that has an id); non-trivial when a lookup uses an id handed out earlier")
 TRUSTED_BASE = [
     "Coq 8.16.1 kernel (coqc; coqchk in thorough); no native_compute",
     "extraction with ExtrOcamlBasic only; OCaml driver oracle/{conv,eng_c14,oracle}.ml",
     "Rust harness /verif/harness (engine c14) over rotonda::verif::ingress (feature verif-hooks)",
     "modelled, not verified: src/ingress.rs Register; AtomicU32::fetch_add and RwLock make each method one atomic step",
+    "Rust harness engine c14u: the real mrt-file-in unit (verif_start: queue, MrtInRunner::run, process_file) on MRT files written by c16's encoders, "
+    "the real BMP state machine (rotonda::verif::bmp::Session: Initiation, Peer Up -> add_peer_config); the accept loops' two register calls "
+    "(bmp router, bgp session) are made by the harness (the bmp accept loop runs for real in engine e2e)",
+    "the table IngressSitesModel.code_sites is read off the code (anchors in the file) and compared with it by engine c14u (ids used, fields stored)",
 ]
 ASSUMPTIONS = [
-    "each Register method is atomic (single fetch_add, or whole body under the RwLock), so sequential histories cover all interleavings of calls",
+    "each Register method is atomic (single fetch_add, or whole body under the RwLock), so sequential histories cover all interleavings of calls; "
+    "for update_info this is a theorem about a small-step model with per-thread programs (C14_update_is_atomic) whose one-step body is tied to the code by "
+    "engine c14 (sequentially) and by the thread stage c14-merge; that the body really runs under one write lock is read off src/ingress.rs",
     "HashMap iteration order is arbitrary: list answers are compared as sets, first-match answers against the candidate set",
     "the composite find-or-register of the callers is not atomic; stability is proved for sequential composites",
 ]
@@ -169,16 +178,170 @@ def contend(V, tier, seed):
     return r
 
 
-ENGINES = [{"name": "c14", "gen": gen, "corpus": corpus, "nontrivial": nontrivial, "classify": classify, "shards": 4}]
+def merge(V, tier, seed):
+    """overlapping update_info calls for the SAME ids that supply DIFFERENT fields (five threads, each the only writer of its fields):
+    every thread reads its own field back after each of its calls, identity fields and lookups stay, at the end every entry holds every
+    thread's last value. What theorems C14_update_own_field / _reads_own_write / _keeps_set_fields / C14_lookups_stable_under_updates say
+    about every interleaving of the one-step update_info; the two-step variant (C14_update_split_refuted) loses within a few rounds."""
+    import subprocess
+    n = 60000 if tier == "quick" else 1500000
+    p = subprocess.run([V.VH, "c14-merge", str(n)], stdout=subprocess.PIPE, text=True, timeout=900)
+    out = p.stdout.strip()
+    r = {"name": "c14-merge", "evaluations": 1, "coverage": {"threads": 5, "ids": 3, "rounds": n, "result": out}, "failures": []}
+    if not out.startswith("ok"):
+        r["failures"].append({"what": f"overlapping update_info calls on one id with disjoint fields lost an update (a metadata update must keep every "
+                                      f"field it does not supply, also when updates interleave): {out}", "kind": "property",
+                              "replay_cmd": f"{V.VH} c14-merge {n}"})
+    return r
+
+
+# ---------------------------------------------------------------- engine c14u: the units' registration / lookup sites
+NPEERS = 5
+
+
+def gen_units_case(rng):
+    """one register; the real mrt-file-in unit (dump / update / state-change files), real BMP sessions (Peer Up), the accept loops'
+    calls, entries filed directly. `clean` (3 of 4 cases): no peer is handed to a site that files without looking once it has an id
+    (the discipline sok_run of C14_site_refound_unique; otherwise known finding C16-1 makes lookups ambiguous)."""
+    n = rng.range(3, 16)
+    clean = rng.chance(75)
+    ops, routers, peerups, nids = [], [], [], 2
+    known_mrt = set()     # peers that have an id under the mrt unit
+    for _ in range(n):
+        k = rng.weighted([("D", 20), ("U", 22), ("S", 12), ("R", 10), ("P", 20), ("G", 4), ("X", 5), ("N", 3), ("C", 4)])
+        if k == "D":
+            pool = [p for p in range(NPEERS) if not (clean and p in known_mrt)]
+            if not pool:
+                k = "U"
+            else:
+                m = min(len(pool), rng.range(1, 3))
+                ps = []
+                for _ in range(m):
+                    c = rng.choice([p for p in pool if p not in ps] if clean else pool)
+                    ps.append(c)
+                ops.append("D " + ",".join(map(str, ps)))
+                known_mrt.update(ps)
+                nids += len(ps)
+                continue
+        if k == "U":
+            p = rng.below(NPEERS)
+            ops.append(f"U {p}")
+            known_mrt.add(p)
+            nids += 1
+        elif k == "S":
+            ops.append(f"S {rng.below(NPEERS)}")
+        elif k == "R":
+            a = rng.range(1, 3)
+            ops.append(f"R {a}")
+            routers.append(a)
+            nids += 1
+        elif k == "P":
+            if peerups and rng.chance(50):
+                t = rng.choice(peerups)                       # the same peer on a new connection of its router
+            else:
+                t = (rng.choice(routers) if routers and rng.chance(90) else rng.range(1, 3), rng.below(3), rng.below(3))
+                peerups.append(t)
+            ops.append("P %d %d %d" % t)
+            nids += 1
+        elif k == "G":
+            ops.append(f"G {rng.below(NPEERS)}")
+            nids += 1
+        elif k == "X":
+            w = rng.choice(["u", "b"] + [str(a) for a in routers])
+            p = rng.below(NPEERS)
+            if clean:
+                # decoys that no site of the parent may find: under the mrt unit WITH a RIB view, under a router WITHOUT
+                v = str(rng.below(3)) if w == "u" else "-"
+            else:
+                v = rng.choice(["-", "0", "1", "2"])
+                if w == "u" and v == "-":
+                    known_mrt.add(p)
+            ops.append(f"X {w} {p} {v}")
+            nids += 1
+        elif k == "N":
+            ops.append(f"N {rng.below(nids)}")
+        else:
+            ops.append("C " + rng.choice(["u", "b"] + [str(a) for a in routers]))
+    return ";".join(ops)
+
+
+def gen_units(rng, tier):
+    for _ in range(500 if tier == "quick" else 12000):
+        yield gen_units_case(rng)
+
+
+def _refinds(out):
+    """(kind, token) of every lookup that used an id handed out earlier in the case"""
+    seen, res = set(), []
+    for t in out.split():
+        if ":" not in t or t.startswith("m:") or t.startswith("c:"):
+            continue
+        kind, ids = t.split(":", 1)
+        amb = ids.startswith("<")
+        for i in ids.strip("<>").replace("|", ",").split(","):
+            if i.startswith("#"):
+                if kind in ("u", "s", "p", "r") and i in seen:
+                    res.append((kind, amb))
+                seen.add(i)
+    return res
+
+
+def nontrivial_units(case, out):
+    return bool(_refinds(out))
+
+
+def classify_units(case, out):
+    ks = []
+    rf = _refinds(out)
+    for kind, name in (("u", "mrt-update-refound"), ("s", "mrt-state-change-refound"), ("p", "bmp-peer-refound"), ("r", "bmp-router-refound")):
+        if any(k == kind for k, _ in rf):
+            ks.append(name)
+    if any(a for _, a in rf):
+        ks.append("ambiguous-lookup(C16-1 or direct duplicate)")
+    cops = case.split(";")
+    if any(o.startswith("D") for o in cops) and any(k == "u" for k, _ in rf):
+        ks.append("dump-in-case-with-update-refind")
+    if "s:none" in out.split():
+        ks.append("state-change-of-unknown-peer")
+    if any(o.startswith("X") for o in cops):
+        ks.append("direct-entries")
+    if any(o.startswith("G") for o in cops):
+        ks.append("bgp-session")
+    return ks
+
+
+def corpus_units():
+    return [
+        # a table dump, then an update and a state change of its peers: the dump's ids (seeded C14-b2: the dump site stored a RIB view
+        # that the update / state-change lookup does not ask for - second id for the same peer, nothing withdrawn)
+        "D 0,1;U 0;S 0;U 1;S 1;C u",
+        # peers first seen in an update file, later updates and state changes; a later dump of ANOTHER peer
+        "U 2;S 2;D 0;U 2;S 2;U 0;C u",
+        # a BMP peer comes back on a new connection of its router: same id per (router, address, AS, RIB view); other view, other router: other ids
+        "R 1;R 2;P 1 0 0;P 1 0 0;P 1 0 1;P 2 0 0;P 1 0 0;P 1 0 1;C 1;C 2;R 1;C b",
+        # known finding C16-1: a second dump of the same peer files fresh ids; the update then has two candidates
+        "D 0;D 0;U 0;S 0;C u",
+        # entries no site of the parent may find (under the mrt unit with a RIB view, under a router without), a BGP session with the
+        # peer's address and AS, a descriptive update in between
+        "X u 0 0;U 0;D 1;G 1;U 1;S 1;N 3;U 0;S 1;C u",
+        "R 1;X 1 0 -;P 1 0 0;G 0;N 4;P 1 0 0;P 1 0 2;C 1",
+    ]
+
+
+ENGINES = [{"name": "c14", "gen": gen, "corpus": corpus, "nontrivial": nontrivial, "classify": classify, "shards": 4},
+           {"name": "c14u", "gen": gen_units, "corpus": corpus_units, "nontrivial": nontrivial_units, "classify": classify_units, "shards": 4}]
 from props.e2e_common import e2e_engine, E2E_TRUSTED
 ENGINES.append(e2e_engine("C14"))   # a real bmp-tcp-in unit: returning routers keep their ingress id, also across a listener re-bind
 TRUSTED_BASE.append(E2E_TRUSTED)
-EXTRAS = [race, contend]
+EXTRAS = [race, contend, merge]
 
 LEVEL_TEXT = ("Theorems over all call histories of the Register model (freshness below the u32 bound, wrap-around shown sharp, "
-              "lookup stability of peers and of routers under the callers' discipline, children-exactness, field-wise merge), kernel-checked, axiom-free; "
+              "lookup stability of peers and of routers under the callers' discipline, children-exactness, field-wise merge), over all interleavings of "
+              "update_info calls (linearizable, own fields kept; the two-step variant refuted) and over all histories of the units' registration / lookup sites "
+              "(a source filed by a site is found by every site of its class; the only candidate at peer level), kernel-checked, axiom-free; "
               "model tied to src/ingress.rs by differential execution of thousands of generated histories on every run.")
 DESIGN_REF = "DESIGN.md section 6, C14"
 LEVEL_NOTE = ("Trusted: Coq kernel, ExtrOcamlBasic extraction + OCaml driver, Rust harness and generators; atomicity of each Register method "
-              "(fetch_add / RwLock) is assumed; a 16-thread register race, and readers (ids_for_parent, get) against a held write lock and against concurrent update_info callers, are run as supporting exploration only.")
+              "(fetch_add / RwLock) is assumed; a 16-thread register race, readers (ids_for_parent, get) against a held write lock and against concurrent update_info callers, "
+              "and five threads updating disjoint fields of the same ids are run as supporting exploration only.")
 TECHNIQUE = "Coq proof by invariant over operation histories + model/implementation correspondence"
